@@ -126,6 +126,19 @@ pub fn run(ctx: &mut Ctx) {
                         let must_err = matches!(exp, refmodel::Exp::Err);
                         ctx.record("reject:nested:every-host", &r, &ds[1], &o, if must_err { verdict(false, false, &o) } else { None });
                     }
+                    // ... and one level further down, behind a wrapper that is parsed only when it is evaluated
+                    for b in bad.iter().step_by(7) {
+                        for w in ["and", "or", "if", "?:", "cat", "!", "merge"] {
+                            ctx.edge();
+                            let mut args = benign(h, n);
+                            args[p] = op(w, vec![b.clone()]);
+                            let r = op(h, args);
+                            let o = ctx.exec(&r, &ds[2]);
+                            let (exp, _) = refmodel::reference(&r, &ds[2]);
+                            let must_err = matches!(exp, refmodel::Exp::Err);
+                            ctx.record("reject:nested:depth-2", &r, &ds[2], &o, if must_err { verdict(false, false, &o) } else { None });
+                        }
+                    }
                 }
             }
         }
